@@ -62,6 +62,9 @@ class Agent(object):
 
 
 CUR = None      # the Sched of the execution in progress (one per process)
+_REAL_START = threading.Thread.start
+_REAL_JOIN = threading.Thread.join
+_REAL_ALIVE = threading.Thread.is_alive
 PRUNE = object()
 HANG_SECONDS = 300
 
@@ -302,8 +305,10 @@ class Sched(object):
             me.state, me.kind = 'ready', None
 
     # -- agents ---------------------------------------------------------------
-    def spawn(self, fn, name='user', obj=None):
-        """Create an agent running fn(); it first runs when scheduled."""
+    def spawn(self, fn, name='user', obj=None, thread=None):
+        """Create an agent running fn(); it first runs when scheduled.
+        thread: an existing threading.Thread object to run in (so that
+        threading.current_thread() inside fn is that very object)."""
         if self.aborting:
             raise Abort()
         a = self._new_agent(name)
@@ -325,10 +330,15 @@ class Sched(object):
             finally:
                 self._finish(a)
 
-        t = threading.Thread(target=boot, name='vf-%s-%d' % (name, a.id),
-                             daemon=True)
+        if thread is None:
+            t = threading.Thread(target=boot, name='vf-%s-%d' % (name, a.id),
+                                 daemon=True)
+        else:
+            t = thread
+            t.run = boot            # instance attribute shadows the method
+            t.daemon = True
         a.thread = t
-        t.start()
+        _REAL_START(t)
         a.ident = t.ident
         self.by_ident[t.ident] = a
         self.effect()
@@ -391,8 +401,8 @@ class Sched(object):
                 a.sem.release()
         for a in self.agents:
             if a.thread is not None:
-                a.thread.join(120)
-                if a.thread.is_alive():
+                _REAL_JOIN(a.thread, 120)
+                if _REAL_ALIVE(a.thread):
                     raise ToolError('agent %r did not unwind' % a)
 
 
@@ -670,7 +680,8 @@ def install(conn_module):
         S = cur()
         if getattr(self, '_vf_agent', None) is not None:
             raise RuntimeError('threads can only be started once')
-        self._vf_agent = S.spawn(self.run, name='net', obj=self)
+        run = type(self).run.__get__(self)      # the class's run()
+        self._vf_agent = S.spawn(run, name='net', obj=self, thread=self)
         S.event('thread-start', self._vf_agent.id)
         S.point('thread.start')
 
